@@ -308,13 +308,34 @@ def op_call_batch(task):
     for c in task["cases"]:
         sys.stdout.write("@@" + json.dumps({"id": task["id"], "progress": c["cid"]}) + "\n")
         sys.stdout.flush()
-        kwargs = {}
-        for nm, a in c["args"].items():
-            kwargs[nm] = Tensor.from_dok({}, dimensions=tuple(a["dims"]), format=fmt(a)) if a["tensor"] else 3.5
+        def build(a):
+            if not a["tensor"]:
+                return 3.5
+            dims = tuple(a["dims"])
+            content = {tuple(0 for _ in dims): 1.0} if all(d >= 1 for d in dims) else {}
+            return Tensor.from_dok(content, dimensions=dims, format=fmt(a))
+
+        kwargs = {nm: build(a) for nm, a in c["args"].items()}
         pos = [Tensor.from_dok({}, dimensions=(2,), format="d")] if c["positional"] else []
+        from tensora.compile import BackendCompiler, evaluate_cffi
+
+        if c.get("primed"):
+            # the call under test comes right after a consistent call of the same (cached) method whose arguments have
+            # the same content
+            base = {nm: build(a) for nm, a in c["base"].items()}
+            try:
+                if c["entry"] == "method":
+                    tensora.tensor_method(c["text"], c["formats"])(**base)
+                elif c["entry"] == "method_cffi":
+                    tensora.tensor_method(c["text"], c["formats"], BackendCompiler.cffi)(**base)
+                elif c["entry"] == "evaluate_cffi":
+                    evaluate_cffi(c["text"], c["output_format"], **base)
+                else:
+                    tensora.evaluate(c["text"], c["output_format"], **base)
+            except Exception:  # noqa: BLE001 - e.g. the documented NoKernelFoundError of evaluate
+                pass
         _EntryRecorder.entered = False
         try:
-            from tensora.compile import BackendCompiler, evaluate_cffi
 
             if c["entry"] == "method":
                 fn = tensora.tensor_method(c["text"], c["formats"])
